@@ -170,8 +170,12 @@ fn fnv(s: &str) -> u64 {
     h
 }
 
+/// (property, tier, level, start) of the check this process runs; read by the watchdog in `sut`
+pub static CURRENT: Mutex<Option<(String, &'static str, &'static str, Instant)>> = Mutex::new(None);
+
 impl Report {
     pub fn new(prop: &str, tier: Tier, level: &'static str) -> Report {
+        *CURRENT.lock().unwrap() = Some((prop.to_string(), tier.name(), level, Instant::now()));
         let seed = std::env::var("VERIF_SEED")
             .ok()
             .and_then(|s| s.parse::<i64>().ok())
